@@ -96,6 +96,8 @@ def gen_model(rng: random.Random, *, max_demes=6, time_scale=8, gen_times=(1, 2,
         if len(anc) >= 2 and near and rng.random() < near * 2:
             # proportions whose sum is close to, but not exactly, 1 (the data model accepts them)
             d["proportions"][0] = Fraction(d["proportions"][0]) + Fraction(1, 2 ** 40) * rng.choice([1, -1])
+        elif len(anc) == 1 and near and rng.random() < near:
+            d["proportions"] = [1 - Fraction(1, 2 ** 40)]     # a single proportion that is only close to 1
         d["start_time"] = start
         lower = [t for t in grid if t < start]
         end = 0 if (not lower or rng.random() < 0.5) else rng.choice(lower)
